@@ -5,7 +5,7 @@ import sysfam, qsys
 
 
 def run(ck):
-    sysfam.run_family(ck, "C16", 60 if ck.tier == "quick" else 1500)
+    sysfam.run_family(ck, "C16", 400 if ck.tier == "quick" else 3000)
 
 
 def replay(ck, path):
